@@ -261,6 +261,104 @@ Proof.
   - apply pt_neb_false_eq in En. subst p. apply IH.
 Qed.
 
+(** the exact decomposition of the outline of one open sub-path, any style without round parts:
+    the generalised rectangle of the first edge, the steps, the fan of the end cap, the fan of the start cap *)
+Theorem open_general_decomposition tol p0 ps p1 r out :
+  first_edge p0 ps = Some (p1, r) ->
+  stroke_undashed (MoveTo p0 :: map (@LineTo R) ps) st tol = Some out ->
+  let th := 2 * tol / sk_width st in let t1 := vec p0 p1 in
+  let lp := fst (last_state p1 t1 r) in let lt := snd (last_state p1 t1 r) in
+  outline_wn out q =
+  (cc p0 [om st t1 p0; om st t1 p1; p1; op st t1 p1; op st t1 p0] + gpieces th p1 t1 r +
+   cc lp (om st lt lp :: ecap_pts lp lt) + cc p0 (op st t1 p0 :: scap_pts p0 t1 ++ [om st t1 p0]))%Z.
+Proof.
+  intros E Hout. rewrite open_polyline_outline_thm, E in Hout. cbv zeta in Hout. injection Hout as <-.
+  cbv zeta. set (th := 2 * tol / sk_width st). set (t1 := vec p0 p1).
+  destruct (first_edge_suffix p0 ps p1 r E) as (Hneb & _ & _).
+  set (lp := fst (last_state p1 t1 r)) in *. set (lt := snd (last_state p1 t1 r)) in *.
+  rewrite !(side_path_head st th _ p0 ps p1 r E), !side_rest_grest. fold t1. unfold sgn.
+  destruct (end_cap_pts lp lt) as (Ece & Lce & Nce). rewrite Ece, start_cap_pts.
+  set (restF := grest th false p1 t1 r). set (restB := grest th true p1 t1 r).
+  change (MoveTo (offs (sk_width st) (-1) t1 p0) :: LineTo (offs (sk_width st) (-1) t1 p1) :: map (@LineTo R) restF)
+    with (MoveTo (om st t1 p0) :: map (@LineTo R) (om st t1 p1 :: restF)).
+  change (MoveTo (offs (sk_width st) 1 t1 p0) :: LineTo (offs (sk_width st) 1 t1 p1) :: map (@LineTo R) restB)
+    with (MoveTo (op st t1 p0) :: map (@LineTo R) (op st t1 p1 :: restB)).
+  pose proof (fun side => last_grest th side r p1 t1 _ eq_refl) as LFB. fold lp lt in LFB.
+  pose proof (LFB false) as LF. pose proof (LFB true) as LB. cbn [sgn] in LF, LB. fold restF in LF. fold restB in LB.
+  assert (Hl : last (ecap_pts lp lt) (om st t1 p0) = last (op st t1 p1 :: restB) (op st t1 p0)).
+  { rewrite last_cons. change (op st t1 p1) with (offs w 1 t1 p1). rewrite LB.
+    destruct (exists_last Nce) as (c & x & Ex). rewrite Ex in *. rewrite last_last in *. exact Lce. }
+  cbn [app].
+  rewrite (wn_open_general (om st t1 p0) (om st t1 p1 :: restF) (ecap_pts lp lt) (op st t1 p0) (op st t1 p1 :: restB)
+             (scap_pts p0 t1) Nce Hl).
+  cbn [chain_from]. rewrite last_cons. change (last restF (om st t1 p1)) with (last restF (offs w (-1) t1 p1)). rewrite LF.
+  pose proof (gstep_identity th r p1 t1) as SI. fold restF restB lp lt in SI.
+  unfold closed_chain. rewrite !last_cons. cbn [chain_from last].
+  rewrite (last_default_irrel _ _ lp Nce), Lce. rewrite chain_from_app, last_last. cbn [chain_from].
+  change (offs w (-1) lt lp) with (om st lt lp) in *. change (offs w (-1) t1 p1) with (om st t1 p1) in *.
+  unfold Xs in SI.
+  set (CE := chain_from q (om st lt lp) (ecap_pts lp lt)) in *.
+  set (CS := chain_from q (op st t1 p0) (scap_pts p0 t1)) in *.
+  set (LS := last (scap_pts p0 t1) (op st t1 p0)) in *.
+  antisym_facts. antisym_hyps. lia.
+Qed.
+
+(** ... and of one closed sub-path: the closing join contributes its two fans *)
+Theorem closed_general_decomposition tol p0 ps p1 r out :
+  first_edge p0 (ps ++ [p0]) = Some (p1, r) ->
+  stroke_undashed (MoveTo p0 :: map (@LineTo R) ps ++ [ClosePath]) st tol = Some out ->
+  let th := 2 * tol / sk_width st in let t1 := vec p0 p1 in
+  let lt := snd (last_state p1 t1 r) in
+  outline_wn out q =
+  (cc p0 [om st t1 p0; om st t1 p1; p1; op st t1 p1; op st t1 p0] + gpieces th p1 t1 r +
+   cc p0 (om st lt p0 :: jpts false p0 lt th t1 ++ [om st t1 p0]) -
+   cc p0 (op st lt p0 :: jpts true p0 lt th t1 ++ [op st t1 p0]))%Z.
+Proof.
+  intros E Hout. rewrite closed_polyline_outline_thm, E in Hout. cbv zeta in Hout. injection Hout as <-.
+  cbv zeta. set (th := 2 * tol / sk_width st). set (t1 := vec p0 p1).
+  destruct (first_edge_suffix p0 (ps ++ [p0]) p1 r E) as (Hneb & Hlast & _).
+  assert (Hlp : fst (last_state p1 t1 r) = p0) by (rewrite last_state_fst, Hlast, last_last; reflexivity).
+  rewrite Hlp. set (lt := snd (last_state p1 t1 r)) in *.
+  rewrite !(side_path_head st th _ p0 (ps ++ [p0]) p1 r E), !side_rest_grest.
+  pose proof (side_join_jpts false p0 lt th t1) as JF. pose proof (side_join_jpts true p0 lt th t1) as JB.
+  unfold side_join in JF, JB. cbv zeta in JF, JB. rewrite JF, JB. clear JF JB.
+  fold t1. unfold sgn.
+  set (Jf := jpts false p0 lt th t1). set (Jb := jpts true p0 lt th t1).
+  set (restF := grest th false p1 t1 r). set (restB := grest th true p1 t1 r).
+  pose proof (fun side => last_grest th side r p1 t1 _ eq_refl) as LFB. fold lt in LFB. rewrite Hlp in LFB.
+  pose proof (LFB false) as LF. pose proof (LFB true) as LB. cbn [sgn] in LF, LB. fold restF in LF. fold restB in LB.
+  change (MoveTo (offs (sk_width st) (-1) t1 p0) :: LineTo (offs (sk_width st) (-1) t1 p1) :: map (@LineTo R) restF)
+    with (MoveTo (om st t1 p0) :: map (@LineTo R) (om st t1 p1 :: restF)).
+  change (MoveTo (offs (sk_width st) 1 t1 p0) :: LineTo (offs (sk_width st) 1 t1 p1) :: map (@LineTo R) restB)
+    with (MoveTo (op st t1 p0) :: map (@LineTo R) (op st t1 p1 :: restB)).
+  change ((MoveTo (om st t1 p0) :: map (@LineTo R) (om st t1 p1 :: restF)) ++ map (@LineTo R) Jf)
+    with (MoveTo (om st t1 p0) :: (map (@LineTo R) (om st t1 p1 :: restF) ++ map (@LineTo R) Jf)).
+  change ((MoveTo (op st t1 p0) :: map (@LineTo R) (op st t1 p1 :: restB)) ++ map (@LineTo R) Jb)
+    with (MoveTo (op st t1 p0) :: (map (@LineTo R) (op st t1 p1 :: restB) ++ map (@LineTo R) Jb)).
+  rewrite <- !map_app.
+  set (fs := (om st t1 p1 :: restF) ++ Jf). set (bs := (op st t1 p1 :: restB) ++ Jb).
+  rewrite (last_end_lines (MoveTo (op st t1 p0)) bs). cbn [el_end_or el_end].
+  pose proof (wn_two_contours q (om st t1 p0) fs (op st t1 p0) bs) as W2. cbn [app] in W2. cbn [app]. rewrite W2. clear W2.
+  unfold fs, bs. rewrite !chain_from_app. cbn [chain_from]. rewrite !last_cons.
+  change (last restF (om st t1 p1)) with (last restF (offs w (-1) t1 p1)).
+  change (last restB (op st t1 p1)) with (last restB (offs w 1 t1 p1)). rewrite LF, LB.
+  change (offs w (-1) lt p0) with (om st lt p0). change (offs w 1 lt p0) with (op st lt p0).
+  assert (LFs : last ((om st t1 p1 :: restF) ++ Jf) (om st t1 p0) = last Jf (om st lt p0)).
+  { destruct Jf as [|x Jf'] eqn:EJ; [rewrite app_nil_r, last_cons; exact LF|].
+    rewrite last_app_cons. rewrite last_cons. reflexivity. }
+  assert (LBs : last ((op st t1 p1 :: restB) ++ Jb) (op st t1 p0) = last Jb (op st lt p0)).
+  { destruct Jb as [|x Jb'] eqn:EJ; [rewrite app_nil_r, last_cons; exact LB|].
+    rewrite last_app_cons. rewrite last_cons. reflexivity. }
+  rewrite LFs, LBs.
+  pose proof (gstep_identity th r p1 t1) as SI. fold restF restB lt in SI. rewrite Hlp in SI.
+  unfold closed_chain. rewrite !last_cons. cbn [chain_from last].
+  rewrite !chain_from_app, !last_last. cbn [chain_from].
+  unfold Xs in SI.
+  set (cF := chain_from q (om st lt p0) Jf) in *. set (cB := chain_from q (op st lt p0) Jb) in *.
+  set (A2 := last Jf (om st lt p0)) in *. set (D2 := last Jb (op st lt p0)) in *.
+  antisym_facts. antisym_hyps. lia.
+Qed.
+
 (** the outer bound for one open sub-path *)
 Theorem open_reach_thm tol p0 ps p1 r out :
   first_edge p0 ps = Some (p1, r) ->
